@@ -10,7 +10,7 @@
    stated. *)
 From Coq Require Import List ZArith Lia String Ascii Bool.
 From Lungo.Model Require Import Access Project.
-From Lungo.Proofs Require Import KeyPaths KeyPathLaws.
+From Lungo.Proofs Require Import KeyPaths KeyPathLaws SliceWindow.
 Import ListNotations.
 Open Scope string_scope.
 Open Scope list_scope.
@@ -1052,5 +1052,109 @@ Section WithMatch.
     rewrite (Get_kpath r q Hk), (Get_kpath d q Hk) in *.
     pose proof (sub_dget _ _ (split_path q) Hs Hm) as Hq.
     split; [exact Hq|]. intro Hl. exact (sub_leaf _ _ Hq Hl).
+  Qed.
+
+  (* -------------------------------------------------------------- *)
+  (* C14: $slice *)
+
+  Lemma process_app st d l1 l2 st' :
+    process pctx st d (l1 ++ l2) "" true = Ok st' ->
+    exists st1, process pctx st d l1 "" true = Ok st1 /\ process pctx st1 d l2 "" true = Ok st'.
+  Proof.
+    revert st. induction l1 as [|e t IH]; intros st H.
+    - exists st. cbn [process app] in *. tauto.
+    - cbn [app] in H. destruct (process_cons _ _ _ _ _ H) as [st1 [H1 H2]].
+      destruct (IH _ H2) as [st2 [H3 H4]]. exists st2. cbn [process]. rewrite H1. cbn [bind]. tauto.
+  Qed.
+
+  (* a projection with exactly one operator entry, at path p *)
+  Lemma one_operator_merge d pre post p ops st' :
+    forallb plain_entry pre = true -> forallb plain_entry post = true ->
+    process pctx pstate0 d (pre ++ (p, VDoc ops) :: post) "" true = Ok st' ->
+    exists st1 st2,
+      ps_merge st1 = [] /\ ps_skip st1 = [] /\
+      process_expression pctx st1 d "" (p, VDoc ops) true = Ok st2 /\
+      ps_merge st' = ps_merge st2 /\ ps_skip st' = ps_skip st2.
+  Proof.
+    intros Hpre Hpost H. destruct (process_app _ _ _ _ _ H) as [st1 [H1 H2]].
+    destruct (process_cons _ _ _ _ _ H2) as [st2 [H3 H4]].
+    destruct (process_plain _ _ _ _ Hpre H1) as [_ [Hm1 Hs1]].
+    destruct (process_plain _ _ _ _ Hpost H4) as [_ [Hm2 Hs2]].
+    exists st1, st2. cbn [pstate0 ps_merge ps_skip] in *. tauto.
+  Qed.
+
+  (* the single merge is applied last: the result holds it *)
+  Lemma single_merge_result st d r p w :
+    project_state st d = Ok r -> ps_merge st = [(p, w)] ->
+    kpath_str p = true -> root p <> "_id" -> is_missing w = false ->
+    Get r p = w.
+  Proof.
+    intros Hs Hm Hk Hroot Hw.
+    destruct (project_state_unfold _ _ _ Hs) as [r1 [r2 [_ [Hmg Hr]]]].
+    rewrite Hm in Hmg. cbn [apply_merges] in Hmg.
+    apply bind_ok in Hmg. destruct Hmg as [[old r2'] [HP Hmg]]. inversion Hmg. subst r2'.
+    pose proof (Put_kpath_ok _ _ _ _ _ Hk Hw HP) as Hd.
+    rewrite (Get_kpath r p Hk). subst r.
+    rewrite hide_id_get; [|apply split_path_nonempty|intros _; exact Hroot].
+    exact (dget_dset_same _ _ _ _ Hd).
+  Qed.
+
+  Lemma slice_entry_step st1 d p x st2 :
+    process_expression pctx st1 d "" (p, VDoc [("$slice", x)]) true = Ok st2 ->
+    project_slice st1 d "$slice" p x = Ok st2.
+  Proof.
+    intro H. destruct (is_operator_key p) eqn:Hk; [rewrite pe_root_operator in H by exact Hk; discriminate|].
+    rewrite pe_single_op in H by (exact Hk || reflexivity). exact H.
+  Qed.
+
+  (* $slice: n *)
+  Theorem slice_spec_n d pre post p x n a r :
+    forallb plain_entry pre = true -> forallb plain_entry post = true ->
+    kpath_str p = true -> root p <> "_id" ->
+    project_slice_int x = Ok (Some n) -> int64 n ->
+    Get d p = VArr a -> (len a < two63)%Z ->
+    Proj d (pre ++ (p, VDoc [("$slice", x)]) :: post) = Ok r ->
+    Get r p = VArr (window_n n a).
+  Proof.
+    intros Hpre Hpost Hk Hroot Hx Hn Ha Hlen H. unfold project_with, project_process in H.
+    apply bind_ok in H. destruct H as [st [Hp Hs]].
+    destruct (one_operator_merge _ _ _ _ _ _ Hpre Hpost Hp) as [st1 [st2 [Hm1 [_ [He [Hm _]]]]]].
+    apply slice_entry_step in He. unfold project_slice in He. rewrite Ha in He.
+    assert (Harg : exists w, slice_limit a n = Ok w /\ st2 = set_merge st1 p (VArr w)).
+    { destruct x; cbn [project_slice_int] in Hx; try discriminate.
+      - inversion Hx. subst z. cbn [bind] in He. apply bind_ok in He. destruct He as [w [Hw He]].
+        inversion He. eauto.
+      - inversion Hx. subst z. cbn [bind] in He. apply bind_ok in He. destruct He as [w [Hw He]].
+        inversion He. eauto.
+      - apply bind_ok in Hx. destruct Hx as [z [Hz Hx]]. inversion Hx. subst z.
+        rewrite Hz in He. cbn [bind] in He. apply bind_ok in He. destruct He as [w [Hw He]].
+        inversion He. eauto. }
+    destruct Harg as [w [Hw Hst2]].
+    rewrite (slice_limit_spec a n w Hn Hlen Hw) in Hst2.
+    apply (single_merge_result st d r p _ Hs); try assumption; [|reflexivity].
+    rewrite Hm, Hst2. cbn [set_merge ps_merge]. rewrite Hm1. reflexivity.
+  Qed.
+
+  (* $slice: [skip, limit] *)
+  Theorem slice_spec_skip_limit d pre post p xs xl s l a r :
+    forallb plain_entry pre = true -> forallb plain_entry post = true ->
+    kpath_str p = true -> root p <> "_id" ->
+    project_slice_int xs = Ok (Some s) -> project_slice_int xl = Ok (Some l) ->
+    int64 s -> int64 l ->
+    Get d p = VArr a -> (len a < two63)%Z ->
+    Proj d (pre ++ (p, VDoc [("$slice", VArr [xs; xl])]) :: post) = Ok r ->
+    (0 <= l)%Z /\ Get r p = VArr (window_skip_limit s l a).
+  Proof.
+    intros Hpre Hpost Hk Hroot Hxs Hxl Hs_ Hl_ Ha Hlen H. unfold project_with, project_process in H.
+    apply bind_ok in H. destruct H as [st [Hp Hs]].
+    destruct (one_operator_merge _ _ _ _ _ _ Hpre Hpost Hp) as [st1 [st2 [Hm1 [_ [He [Hm _]]]]]].
+    apply slice_entry_step in He. unfold project_slice in He. rewrite Ha, Hxs in He.
+    cbn [bind] in He. rewrite Hxl in He. cbn [bind] in He.
+    destruct (l <? 0)%Z eqn:El; [discriminate|]. apply Z.ltb_ge in El.
+    cbn [bind] in He. apply bind_ok in He. destruct He as [w [Hw He]]. inversion He as [Hst2].
+    split; [exact El|].
+    rewrite (slice_skip_limit_spec a s l w Hs_ Hl_ El Hlen Hw) in Hst2.
+    apply (single_merge_result st d r p _ Hs); try assumption; [|reflexivity].
+    rewrite Hm, <- Hst2. cbn [set_merge ps_merge]. rewrite Hm1. reflexivity.
   Qed.
 End WithMatch.
